@@ -118,7 +118,7 @@ impl Scenario for C05 {
 
     fn runs(&self, tier: Tier) -> u64 {
         match tier {
-            Tier::Quick => 6_000,
+            Tier::Quick => 30_000,
             Tier::Thorough => 1_000_000,
         }
     }
